@@ -401,6 +401,9 @@ func (e *Exec) floatToInt(f *Term, w int, signed bool) *Term {
 
 func (e *Exec) builtin(f *Frame, b *ssa.Builtin, args []Value, call *ssa.CallCommon) Value {
 	tt := e.tt
+	if call == nil && (b.Name() == "append" || b.Name() == "min" || b.Name() == "max") {
+		e.unsupported("deferred/indirect builtin " + b.Name())
+	}
 	switch b.Name() {
 	case "len":
 		switch x := args[0].(type) {
